@@ -437,8 +437,20 @@ func c07Execute(c c07Case) c07Result {
 	log.temp = c07TempReader(inner)
 	ann.SetLogHandler(new(loggers.NullLogger))
 	inner.SetLogHandler(new(loggers.NullLogger))
+	// registration routes: every observer appended (AddObserver), or -- as scenario.BaseScenario.SetAnnealer does with the
+	// scenario's own observer -- the one that is to be notified FIRST registered LAST through AddObserverAsFirst, after the
+	// others are already there.  Either way the notification order is observer 0, 1, ..., m-1.
+	c07RegRoute++
+	asFirst := c.m >= 1 && c07RegRoute%2 == 0
 	for i := 0; i < c.m; i++ {
+		if asFirst && i == 0 {
+			continue
+		}
 		ann.AddObserver(&c07Obs{idx: i, log: log, st: st})
+	}
+	if asFirst {
+		ann.AddObserverAsFirst(&c07Obs{idx: 0, log: log, st: st})
+		c07Stats[fmt.Sprintf("observer_added_as_first_after_%d_others", c.m-1)]++
 	}
 	// scenario.Runner.wireObservers: the annealer observes its explorer and its model
 	if en, ok := inner.(observer.EventNotifier); ok {
@@ -704,6 +716,7 @@ func c07Oracle(c c07Case, r c07Result) []string {
 // ---- generation ----
 
 var c07Stats = map[string]int{}
+var c07RegRoute int
 
 func c07Emit(c c07Case) {
 	r := c07Execute(c)
